@@ -281,9 +281,23 @@ def run(ctx, repo):
             ctx.ok('R5', 'refusal guard directly after PAT_EVENT_CODE.match')
     if not S.strips:
         ctx.info('normalize_event_code does not strip its argument first')
-    # a return before the refusal guard answers without validating (e.g. a memo looked up first)
+    # a return before the refusal guard answers without validating; the one accepted case is the hit of a transparent memo
+    # (plain key, filled only after the guard has passed)
+    from ..memo import analyse as memo_analyse, find_memos, container_text
+    from ..props.c19 import module_mutables
+    mm0 = set(module_mutables(utils))
+    res0, memos0 = memo_analyse(S.fn, mm0)
+    clean_memos = set()
+    if not res0:
+        for cont, key, store, value in memos0:
+            if S.guard is not None and store.lineno > S.guard.lineno:
+                clean_memos.add((cont, ast.unparse(key)))
     for r in S.early_returns:
         if S.guard is None or r.lineno < S.guard.lineno:
+            v = r.value
+            if isinstance(v, ast.Subscript) and (container_text(v), ast.unparse(v.slice)) in clean_memos:
+                ctx.ok('R5', 'memo hit before the guard: key is the plain argument and entries are stored only after validation')
+                continue
             ctx.finding('R5', '%s::normalize_event_code::return before the refusal guard' % UTILS, UTILS, r.lineno,
                         'normalize_event_code can return (%s) before the `not m -> raise ValueError` guard has run: a string that is '
                         'not an event code can be answered instead of refused' % unparse(r))
